@@ -120,6 +120,11 @@ func buildAssertion(r *RNG, s *AuthSpec) M {
 		h := hostOf(s.Origin)
 		cd.Origin = variant(r, s.Var, []string{"https://evil.example", "https://evil" + h, "https://" + h + ".evil.com", "https://evil.com/" + h, "https://" + h + "@evil.com", "", "https://evil.com?" + h, "https://evil.com#" + h, "null", "https://www.not" + h, "https://x" + h + ":443", "https://login.evil" + h, "https://attacker.test.", "https://" + h + ".", "https://login.attacker.test.:8443", "https://" + h + "..", "https://evil.example./", parentOrigin(h)})
 	}
+	if s.d("cd.memberAbsent") {
+		// one of the three members is not in the document at all, or is null: the decoded member is the empty string, whatever a
+		// decoder that reuses its target may have left there from an earlier ceremony
+		cd.Absent = map[string]string{variant(r, s.Var, []string{"type", "challenge", "origin"}): pick(r, []string{"omit", "omit", "null"})}
+	}
 	cdj := cd.JSON(r)
 	if s.d("cd.malformed") {
 		// not one JSON object: trailing data after the object (the signature / hash covers exactly these bytes), truncated, another value
